@@ -392,6 +392,10 @@ class SchemaGen:
             for p in impl:
                 for f in spec.interfaces[p][1]:
                     if f.name not in [x.name for x in fields]:
+                        if not f.type.endswith("!") and rng.random() < 0.3:
+                            # covariant refinement: the object promises non-null where the interface allows null
+                            f = Field(f.name, f.type + "!", f.args, f.description, f.deprecated)
+                            self.feats.add("out.covariant_nonnull")
                         fields.append(f)
             spec.objects[n] = (impl, fields)
         # every interface needs no implementer to be valid, but operations want some: make sure each has one
